@@ -41,6 +41,12 @@ def main(argv) -> int:
     except env.HarnessError as ex:
         print(f"HARNESS-ERROR {ex}")
         return 2
+    except Exception:  # noqa: BLE001 - a crash of the machinery is never a verdict
+        import traceback
+
+        traceback.print_exc()
+        print("HARNESS-ERROR unexpected exception in the verification machinery")
+        return 2
 
 
 if __name__ == "__main__":
